@@ -916,6 +916,7 @@ func main() {
 		itf     string
 		v       drv.Violation
 		b       *built
+		shard   string // "k/n": the slice of the binary's actions the driver process was running
 	}
 	var observations []obs
 	cases, checks, driven := 0, 0, 0
@@ -1021,7 +1022,7 @@ func main() {
 							samples = append(samples, map[string]interface{}{"action": r.Kind + " " + r.IDLName, "class": a.class, "case": r.Sample, "cases": r.Cases, "violations": len(r.Violations)})
 						}
 						for _, v := range r.Violations {
-							observations = append(observations, obs{a, r.Kind, r.IDLName, r.Itf, v, b})
+							observations = append(observations, obs{a, r.Kind, r.IDLName, r.Itf, v, b, fmt.Sprintf("%d/%d", sh, shards)})
 						}
 					}
 					if ro.deadline {
@@ -1074,7 +1075,7 @@ func main() {
 					}
 					driven++
 					drivenKind[kind]++
-					observations = append(observations, obs{a, kind, name, key[:strings.Index(key, ".")], v, b})
+					observations = append(observations, obs{a, kind, name, key[:strings.Index(key, ".")], v, b, fmt.Sprintf("%d/%d", sh, shards)})
 					omu.Unlock()
 				}
 			}(i, b, sh)
@@ -1207,6 +1208,36 @@ func main() {
 		if ok {
 			nondeterministic = append(nondeterministic, fmt.Sprintf("%s on %s: %d/5 (otherwise %v)", u.fp, u.key, u.same, u.others))
 			continue
+		}
+		if u.same == 0 && len(u.others) == 0 {
+			// the action is fine in a fresh process and failed in the long-running
+			// driver: the failure depends on what the process did BEFORE (a cache, a
+			// pooled buffer, package-level state in the code under test). Run the
+			// same slice of actions again, twice: when the action fails there both
+			// times, the history-dependent failure is the finding (the policy of
+			// report.Checker.Unstable; seed C05-17 cached the member list of every
+			// anonymous struct type under one key).
+			o := rf[u.fp].obs[0]
+			again := 0
+			for k := 0; k < 2; k++ {
+				ro := c.runDriver(o.b.bin, o.b.dir, []string{"-shard", o.shard, "-deadline", fmt.Sprint(time.Now().Add(4 * time.Minute).Unix())}, 5*time.Minute)
+				for _, res := range ro.results {
+					if res.Itf+"."+res.Kind+":"+res.IDLName != u.key {
+						continue
+					}
+					for _, v := range res.Violations {
+						if v.Failure == o.v.Failure {
+							again++
+							break
+						}
+					}
+				}
+			}
+			if again == 2 {
+				c.add(u.fp+"/depends-on-earlier-calls", fmt.Sprintf("%s [fails in the driver process that ran the other actions of its slice before (3/3 runs of that slice), passes 5/5 alone in a fresh process: the failure depends on earlier calls in the same process]", rf[u.fp].what),
+					o.a.id, map[string]interface{}{"idl": renderIDL("main", []*atom{o.a}), "action": u.key, "case": o.v.Case, "observed": o.v.What, "slice": o.shard, "package_dir": o.b.dir})
+				continue
+			}
 		}
 		chk.EngineError("run-time fingerprint %s (action %s) reproduced %d/5 times (also seen: %v): not reported as a violation", u.fp, u.key, u.same, u.others)
 	}
